@@ -13,6 +13,7 @@ Oracle: independent of the Lean model: the user's objective / constraint express
 """
 from __future__ import annotations
 
+import os
 import warnings
 from fractions import Fraction
 
@@ -26,6 +27,10 @@ from props.c04 import frac_eval, NotPoly, DivZero
 LEAN_MODULE = "Optyx.Props.C05"
 THEOREMS = [
     "Optyx.Props.C05.coeffs_sound",
+    "Optyx.Props.C05.walker_sound",
+    "Optyx.Props.C05.coeffs_sound_total",
+    "Optyx.Props.C05.div_zero_raises",
+    "Optyx.Props.C05.extractLP_total",
     "Optyx.Props.C05.shortcuts_eq_general",
     "Optyx.Props.C05.names_eq_of_sorted",
     "Optyx.Props.C05.extractLP_sound",
@@ -44,7 +49,7 @@ ASSUMPTIONS = [
 # (x ** 1).sum() / (x ** 0).sum() build VectorPowerSum nodes of degree 1 / 0: `is_linear` accepts them but none of the
 # extraction walkers knows the node, so their coefficients / constant are silently dropped (a genuine C05 violation of
 # the unmodified tree, reported to the coordinator).  Keep them out of the default stream until it is decided.
-INCLUDE_POWSUM = False
+INCLUDE_POWSUM = os.environ.get("C05_INCLUDE_POWSUM", "") == "1"
 
 
 def run_lean_unit(lines):
@@ -489,6 +494,10 @@ def run(ctx) -> core.Report:
             for order, inv in orders:
                 sub.append(("coeffs" if inv else "coeffs-perm", e, order, len(lines)))
                 lines.append(f"coeffs {s} ({' '.join(quote(nm) for nm in order)})")
+                # which branch the model takes (evidence) and what the bare walker would return there
+                sub.append(("path", e, (order, inv), len(lines)))
+                lines.append(f"path {s} ({' '.join(quote(nm) for nm in order)})")
+                lines.append(f"coeffs_general {s} ({' '.join(quote(nm) for nm in order)})")
             sub.append(("const", e, None, len(lines)))
             lines.append(f"const {s}")
             if names:
@@ -525,6 +534,17 @@ def run(ctx) -> core.Report:
                 rep.oracle_failures.append({"what": f"extract raised an unexpected {nm}: {ex}"[:300], "problem": lines[idx], "tag": tag})
         # per-expression functions
         for cmd, e, arg, li in sub:
+            if cmd == "path":
+                order, inv = arg
+                k6 = f"path:{outs[li]}" + ("" if inv else " (permuted order)")
+                rep.histogram[k6] = rep.histogram.get(k6, 0) + 1
+                # shortcuts_eq_general, observed: under an order Problem.variables can produce, the shortcut
+                # result of the model equals the bare walker's result of the model
+                if inv and outs[li].startswith("fast:") and outs[li - 1] != outs[li + 1]:
+                    rep.corr_mismatches.append({"what": "model: shortcut result differs from the general walker under a "
+                                                        "sorted order (theorem shortcuts_eq_general would be violated)",
+                                                "cmd": lines[li - 1][:1200], "fast": outs[li - 1], "general": outs[li + 1]})
+                continue
             rep.evaluations += 1
             with warnings.catch_warnings():
                 warnings.simplefilter("ignore")
